@@ -33,7 +33,9 @@ def obligations(tier, seed):
         for a in KINDS7:
             for b in KINDS7:
                 if a != b:
-                    for sid in ("p1_int_d", "p1_str_s", "p2_plain_then_d", "p1_bool_b", "p1_optint_none", "p1_kwargs", "p3_mixed"):
+                    for k_, sid in enumerate(("p1_int_d", "p1_str_s", "p2_plain_then_d", "p1_bool_b", "p1_optint_none", "p1_kwargs", "p3_mixed")):
+                        if k_ >= 3 and (KINDS7.index(a) + KINDS7.index(b) + k_) % 2:
+                            continue  # every pair with the three core shapes, every second pair with each of the other four
                         obs.append(mk_ob("chain", "chain", (a, b), sid, opts, tier, funcs=FUNCS, pl=1, dr=2, timeout=600))
         n = 0
         for a in KINDS7:
